@@ -657,3 +657,40 @@ def b_roundtrip(tier, seed):
                 if ctx.claims.get("hash", "") != want.hash or ctx.claims.get("subject", "") != (want.subject or ""):
                     fails.append(f"select={sel} on {h!r}: claims {dict(ctx.claims)!r}")
     return BoundedResult(n, fails)
+
+
+
+ELEMENT_POOL = [
+    'By=a;Hash=h1;Subject="CN=client";DNS=admin.internal;DNS=c.example',
+    "By=b;Hash=h2;URI=spiffe://x/y",
+    'Hash=h3;Subject="CN=proxy,O=x";DNS=p.example',
+    "Hash=h4",
+    'Subject="CN=a\\\\";DNS=z.example',
+    "Cert=abc%20def;By=c",
+]
+
+
+@bounded("B4 every element of a multi-element header parses to what it parses to alone (no field leaks between elements); claims come from the selected element only", bound="all sequences of 1-3 elements from a pool of 6 (repeatable DNS, quoted subjects ending in an escaped backslash, URL-encoded fields): 258 headers x {first,last}", tiers=("quick", "thorough"))
+def b_isolation(tier, seed):
+    fails, n = [], 0
+    alone = {e: mt._parse_xfcc(e) for e in ELEMENT_POOL}
+    for e, got in alone.items():
+        if len(got) != 1:
+            fails.append(f"single element {e!r} parsed into {len(got)} elements")
+    for k in (1, 2, 3):
+        for combo in itertools.product(ELEMENT_POOL, repeat=k):
+            n += 1
+            h = ",".join(combo)
+            els = mt._parse_xfcc(h)
+            want = [alone[e][0] for e in combo if len(alone[e]) == 1]
+            if els != want:
+                fails.append(f"{h!r}: element fields {els!r} differ from the elements parsed alone {want!r}")
+                continue
+            for sel, w in (("first", want[0]), ("last", want[-1])):
+                ctx = mt.mtls_authenticate_xfcc(select_element=sel)(FakeReq(h))
+                solo = mt.mtls_authenticate_xfcc(select_element=sel)(FakeReq(combo[0] if sel == "first" else combo[-1]))
+                if dict(ctx.claims) != dict(solo.claims) or ctx.principal != solo.principal:
+                    fails.append(f"select={sel} on {h!r}: identity {ctx.principal!r} / claims {dict(ctx.claims)!r} differ from the selected element alone ({solo.principal!r} / {dict(solo.claims)!r})")
+        if len(fails) > 10:
+            break
+    return BoundedResult(n, fails[:10])
